@@ -2475,7 +2475,8 @@ bool Parser::parseInitializerListItem(InitializerSyntax*& init, InitializerListS
             return true;
 
         case SyntaxKind::CommaToken:
-            if (peek(2).kind() == SyntaxKind::CloseBraceToken) {
+            if (initList
+                    && peek(2).kind() == SyntaxKind::CloseBraceToken) {
                 initList->delimTkIdx_ = consume();
                 return true;
             }
